@@ -1,7 +1,7 @@
 """C01 — reject-or-preserve for the core language.
 
-Proof: lean/Reduino/Props/C01.lean: translation correctness of `tr` on the core fragment (Python semantics of the
-source = C semantics of the emitted program, every N).
+Proof: lean/Reduino/Props/C01.lean: translation correctness of `tr` / `tr2` on the core fragment (Python semantics of the
+source = C semantics of the emitted program, every N; strict reading of `/` and `%`, see TRUSTED).
 Ties: T (text rendered from the model's `tr` vs the real emit(parse(...))), S_py (model Python semantics vs CPython),
 S_c (model C semantics vs the compiled sketch).  Oracle E: CPython trace vs compiled-firmware trace of the same script,
 on the fragment and on a stream of constructs just outside it."""
@@ -16,14 +16,22 @@ from common import Ctx
 
 TRUSTED = [
     "Lean 4.33 kernel; axioms ⊆ {propext, Classical.choice, Quot.sound}",
-    "fragment: int/bool values, + - *, unary minus, comparisons, and/or/not over bools, conditional expressions, assignment, augmented assignment, "
-    "if/elif/else, while, for-range, break, serial write of ints, sleep; every name first assigned at top level (no promotion); helper functions, lists, "
-    "strings, floats, // % / ** and `continue` are outside the theorem and exercised only by the end-to-end oracle",
-    "C int modelled as an unbounded integer (no overflow): 16-bit AVR int is a side condition the model does not check",
+    "fragment: int/bool values, + - *, bitwise & | ^, // and %, abs(e), min/max over int-typed operands (n-ary calls = left fold), unary minus, comparisons, "
+    "and/or/not over bools, conditional expressions, assignment, augmented assignment (every operator), if/elif/else, while, for-range, break, serial write "
+    "of ints, sleep; names first assigned at top level or (tr2) one block below it; helper functions, lists, strings, floats, / ** << >> and `continue` are "
+    "outside the theorem and exercised only by the end-to-end oracle",
+    "`//` and `%`: the theorem is about the STRICT reading of the C semantics, which stops with `signedDiv` at a `/` or `%` with a negative dividend or divisor "
+    "(there C and Python may differ: K01b, K01c); runs that stop there are not compared in the strict S_c tie, but the RAW reading (C's truncating operators) is "
+    "tied to g++ on every run, and a CPython-vs-firmware difference in such a run is reported under core:floor-division-negative / core:modulo-negative; "
+    "a zero divisor: CPython raises (run skipped as python-raises), the model's raw run reports it and the host firmware dies with SIGFPE",
+    "bitwise operators on negative ints: the model's own two's-complement definitions (bitAnd/bitOr/bitXor over Nat operations), tied to CPython and g++ by S_py / S_c",
+    "abs/min/max: the model evaluates the chosen operand once, the Arduino macros twice (expressions of the fragment are pure)",
+    "C int modelled as an unbounded integer with a 32-bit range check (`overflow`): 16-bit AVR int is a side condition the model does not check",
     "harness/langgen.py printers (Python text and S-expression of one tree), harness/pyoracle.py (CPython + host modules), mock core + host g++",
 ]
 
 FUEL = 4000
+OPS_COUNTED = ["band", "bor", "bxor", "abs", "min", "max", "fdiv", "fmod"]
 
 
 def ev_str(evs):
@@ -31,7 +39,8 @@ def ev_str(evs):
 
 
 OUTSIDE = [
-    # (key, description, source)  — one construct outside the proven fragment each
+    # (key, description, source)  — one construct outside the proven fragment each (`//`, `%` are modelled since W1: the two scripts are
+    # the pinned witnesses of K01b / K01c, where the theorem's strict C run stops with `signedDiv`)
     ("core:continue-dropped", "continue", "n = 0\nwhile n < 4:\n    n += 1\n    if n == 2:\n        continue\n    mon.write(n)\n"),
     ("core:floor-division-negative", "// with a negative operand", "x = 7\ny = -2\nmon.write(x // y)\n"),
     ("core:modulo-negative", "% with a negative operand", "x = -7\ny = 3\nmon.write(x % y)\n"),
@@ -194,7 +203,7 @@ def e_compare(ctx, key, src, passes, res, in_domain):
 
 
 def run(ctx: Ctx) -> int:
-    ctx.prove(["Reduino.Props.C01"])
+    ctx.prove(["Reduino.Props.C01", "Reduino.GenOb.Ops"])
     common.fresh_import()
     rng = ctx.rng
     progs = []
@@ -218,12 +227,16 @@ def run(ctx: Ctx) -> int:
     mt = ctx.lean.drive([f"lang|tr{t}|{s}" for s, t in zip(sxs, two)])
     mpy = ctx.lean.drive([f"lang|pyrun|{s}|{n}|{FUEL}" for s, n in zip(sxs, passes)])
     mc = ctx.lean.drive([f"lang|crun{t}|{s}|{n}|{FUEL}" for s, n, t in zip(sxs, passes, two)])
+    mcraw = ctx.lean.drive([f"lang|crunraw{t}|{s}|{n}|{FUEL}" for s, n, t in zip(sxs, passes, two)])
     jobs = [(cpp, n, "") for (cpp, e), n in zip(outs, passes) if cpp is not None]
     it = iter(cxx.run_many(ctx, jobs))
     results = [next(it) if cpp is not None else None for cpp, e in outs]
     norm = lambda text: [" ".join(l.split()) for l in text.split("\n") if l.strip() and not l.strip().startswith("//")]
-    for p, src, sx, n, (cpp, exc), res, t, rpy, rc, t2 in zip(progs, srcs, sxs, passes, outs, results, mt, mpy, mc, two):
+    for p, src, sx, n, (cpp, exc), res, t, rpy, rc, rcraw, t2 in zip(progs, srcs, sxs, passes, outs, results, mt, mpy, mc, mcraw, two):
         ctx.count("programs" + ("-with-promotion" if t2 else ""))
+        for opn in OPS_COUNTED:
+            if f"(bin {opn} " in sx or f" {opn} (" in sx or f"({opn} " in sx:
+                ctx.count("programs-using:" + opn)
         if t2 and t.startswith("ok") and not t.endswith(" in"):
             ctx.tie_diff("generator invariant (promotion programs are in InF2)", {"script": src}, t[-4:], "")
         replay = {"script": src, "passes": n}
@@ -258,26 +271,53 @@ def run(ctx: Ctx) -> int:
                 ctx.tie_diff("tie S_py (Lang.Py.run vs CPython)", replay, rpy[:300], want[:300])
         else:
             ctx.count("python-raises:" + type(err).__name__)
-            if rpy.startswith("ok"):
+            if rpy.startswith("ok") or (isinstance(err, ZeroDivisionError) and rpy != "error ZeroDivisionError"):
                 ctx.tie_diff("tie S_py (Lang.Py.run vs CPython)", replay, rpy[:200], "raises " + type(err).__name__)
-        # ---- S_c
+        # ---- S_c: the strict reading of `/`, `%` (the one the theorem speaks about) stops at a division with a negative operand; the raw
+        #      reading (C's own operators) is tied to g++ on every run
+        signed = rc == "error signed-division"
+        signed_key = "core:floor-division-negative" if "fdiv" in sx else "core:modulo-negative"
+        if signed:
+            ctx.count("c-signed-division (strict reading stops; raw reading tied)")
         if res.compile_error or not res.ok:
+            if rcraw == "error ZeroDivisionError" and not res.compile_error:
+                # the model's raw run divides by zero (undefined in C; SIGFPE on the host)
+                if isinstance(err, ZeroDivisionError):
+                    ctx.count("c-division-by-zero (CPython raises ZeroDivisionError at the same point)")
+                    continue
+                if signed:
+                    ctx.fail(signed_key, "after a `/` or `%` with a negative operand the sketch goes on to divide by zero where CPython does not", replay)
+                    continue
             ctx.fail("core:compile", f"accepted script does not compile/run: {(res.compile_error or res.stderr)[:300]}", replay)
             continue
-        if rc == "error overflow":
+        if rc == "error overflow" or rcraw == "error overflow":
             ctx.count("c-int-overflow (outside Fits)")
             continue
         fw = pyoracle.fw_events(res.trace)
         got = "ok " + ev_str(fw)
         if rc.startswith("ok") and rc != got:
             ctx.tie_diff("tie S_c (Lang.C.run vs compiled sketch)", replay, rc[:300], got[:300])
+        if rc.startswith("ok") and rcraw != rc:
+            ctx.tie_diff("strict_run_is_raw_run (driver: a successful strict run is the raw run)", replay, rc[:300], rcraw[:300])
+        if rcraw.startswith("ok"):
+            ctx.count("raw-runs-tied-to-g++")
+            if rcraw != got:
+                ctx.tie_diff("tie S_c raw (Lang.C.run .raw vs compiled sketch)", replay, rcraw[:300], got[:300])
         # ---- E
         if err is None:
             a = [(k, str(v) if k == "w" else int(v)) for k, v in py]
             b = [(k, str(v) if k == "w" else int(v)) for k, v in fw]
             if a != b:
                 i = next((j for j, (x, y) in enumerate(zip(a, b)) if x != y), min(len(a), len(b)))
-                ctx.fail("core:trace", f"firmware differs from CPython at event {i}: python {a[i:i+4]} firmware {b[i:i+4]}", {**replay, "python": a[:40], "firmware": b[:40]})
+                what = f"firmware differs from CPython at event {i}: python {a[i:i+4]} firmware {b[i:i+4]}"
+                if signed:
+                    # the model explains the difference: its strict C run stops at a signed division (K01b / K01c), its raw run is the firmware's
+                    ctx.count("E-differs-after-signed-division (known K01b/K01c)")
+                    ctx.fail(signed_key, what, {**replay, "python": a[:40], "firmware": b[:40]})
+                else:
+                    ctx.fail("core:trace", what, {**replay, "python": a[:40], "firmware": b[:40]})
+            elif signed:
+                ctx.count("E-agrees-although-signed-division (exact or same-sign division)")
     # ---- `break` in the main loop must be rejected in every nesting through if/try
     for body in ["    break\n", "    if a > 0:\n        break\n", "    if a > 0:\n        a = 1\n    else:\n        break\n",
                  "    try:\n        break\n    except Exception:\n        a = 2\n", "    try:\n        a = 1\n    except Exception:\n        break\n",
@@ -305,6 +345,7 @@ def run(ctx: Ctx) -> int:
             continue
         e_compare(ctx, key, src, 3, res, inside)
     ctx.cov["rule"] = ("type-directed random programs of the core fragment (depth <= 3, bounded while loops, for-range, break, nested if/elif/else, int and bool "
-                       "names all first assigned at top level), N in {0,1,3} passes; each program goes through T, S_py, S_c and E; plus fixed scripts for "
+                       "names all first assigned at top level; expressions over + - * & | ^ // % abs min max, divisors mostly positive), N in {0,1,3} passes; "
+                       "each program goes through T, S_py, S_c (strict and raw reading) and E; plus fixed scripts for "
                        "break-in-main-loop, swaps/tuples, helpers, lists, f-strings (E only) and one-construct-outside scripts; non-trivial = has control flow")
     return ctx.finish(TRUSTED, search=None)
